@@ -22,7 +22,14 @@ const (
 func (fc *FnCtx) ghArr(name string) string { return fc.getComp(name, arraySort("Int")) }
 
 // readBytes: k bytes are read from reader x (and therefore from everything below it in the tee chain).
-func (fc *FnCtx) readBytes(x, k string) {
+const ghFailed = "GH.failed"
+
+// readBytes: k bytes are read from reader x (and therefore from everything below it in the tee chain); fail is an
+// Int term (0/1): 1 if the read operation returned an error, which marks the whole chain as failed (the connection
+// is no longer usable: framing claims are conditional on no failed read).
+func (fc *FnCtx) readBytes(x, k string) { fc.readBytesF(x, k, "0") }
+
+func (fc *FnCtx) readBytesF(x, k, fail string) {
 	fc.vc.trust("io readers: consumed(r) counts bytes read; io.TeeReader/threads.NewReadCloser forward reads to their source (and count them in a threads.WriteCounter destination); chains deeper than 3 are not followed")
 	src := fc.ghArr(ghTeeSrc)
 	dst := fc.ghArr(ghTeeDst)
@@ -31,6 +38,10 @@ func (fc *FnCtx) readBytes(x, k string) {
 	for depth := 0; depth < 4; depth++ {
 		cons := fc.ghArr(ghConsumed)
 		fc.setComp(ghConsumed, arraySort("Int"), mkIte(guard, sto(cons, cur, mkAdd(sel(cons, cur), k)), cons))
+		if fail != "0" {
+			fl := fc.ghArr(ghFailed)
+			fc.setComp(ghFailed, arraySort("Int"), mkIte(mkAnd(guard, mkEq(fail, "1")), sto(fl, cur, "1"), fl))
+		}
 		if depth == 3 {
 			break
 		}
@@ -86,7 +97,7 @@ func (fc *FnCtx) readOp(reader Val, size string, tag string) (errT string, k str
 	fc.vc.assert("(and (<= 0 " + k + ") (<= " + k + " " + size + "))")
 	fc.vc.assert(mkEq(errT, mkIte(mkEq(k, size), "0", e)))
 	fc.vc.assert(mkEq("(cause "+e+")", e))
-	fc.readBytes(reader.T, k)
+	fc.readBytesF(reader.T, k, mkIte(mkEq(k, size), "0", "1"))
 	return errT, k
 }
 
@@ -109,7 +120,7 @@ func init() {
 		tup := rt.(*types.Tuple)
 		return &Val{Typ: rt, Tup: []Val{{T: k, S: SInt, Typ: tup.At(0).Type()}, {T: errT, S: SInt, Typ: tup.At(1).Type()}}}, nil
 	}
-	builtinMods["io.ReadFull"] = []string{ghConsumed, ghCount, "E.byte", "E.uint8"}
+	builtinMods["io.ReadFull"] = []string{ghConsumed, ghCount, ghFailed, "E.byte", "E.uint8"}
 
 	builtinModels["encoding/binary.Read"] = func(fc *FnCtx, c *ssa.CallCommon, args []Val, rt types.Type) (*Val, error) {
 		mi, ok := c.Args[2].(*ssa.MakeInterface)
@@ -139,7 +150,7 @@ func init() {
 		}
 		return &Val{T: errT, S: SInt, Typ: rt}, nil
 	}
-	builtinMods["encoding/binary.Read"] = []string{ghConsumed, ghCount, "*"}
+	builtinMods["encoding/binary.Read"] = []string{ghConsumed, ghCount, ghFailed, "*"}
 
 	builtinModels["encoding/binary.Write"] = func(fc *FnCtx, c *ssa.CallCommon, args []Val, rt types.Type) (*Val, error) {
 		fc.vc.trust("writers (bytes.Buffer, net.Conn) are not modelled: writes return an arbitrary error and change no modelled state")
@@ -148,20 +159,20 @@ func init() {
 	}
 	builtinModels["io.TeeReader"] = func(fc *FnCtx, c *ssa.CallCommon, args []Val, rt types.Type) (*Val, error) {
 		r := fc.newRef()
-		for _, g := range []struct{ comp, v string }{{ghTeeSrc, args[0].T}, {ghTeeDst, args[1].T}, {ghConsumed, "0"}} {
+		for _, g := range []struct{ comp, v string }{{ghTeeSrc, args[0].T}, {ghTeeDst, args[1].T}, {ghConsumed, "0"}, {ghFailed, "0"}} {
 			fc.setComp(g.comp, arraySort("Int"), sto(fc.ghArr(g.comp), r, g.v))
 		}
 		return &Val{T: r, S: SInt, Typ: rt}, nil
 	}
-	builtinMods["io.TeeReader"] = []string{ghTeeSrc, ghTeeDst, ghConsumed}
+	builtinMods["io.TeeReader"] = []string{ghTeeSrc, ghTeeDst, ghConsumed, ghFailed}
 	builtinModels["github.com/tokenized/threads.NewReadCloser"] = func(fc *FnCtx, c *ssa.CallCommon, args []Val, rt types.Type) (*Val, error) {
 		r := fc.newRef()
-		for _, g := range []struct{ comp, v string }{{ghTeeSrc, args[0].T}, {ghTeeDst, "0"}, {ghConsumed, "0"}} {
+		for _, g := range []struct{ comp, v string }{{ghTeeSrc, args[0].T}, {ghTeeDst, "0"}, {ghConsumed, "0"}, {ghFailed, "0"}} {
 			fc.setComp(g.comp, arraySort("Int"), sto(fc.ghArr(g.comp), r, g.v))
 		}
 		return &Val{T: r, S: SInt, Typ: rt}, nil
 	}
-	builtinMods["github.com/tokenized/threads.NewReadCloser"] = []string{ghTeeSrc, ghTeeDst, ghConsumed}
+	builtinMods["github.com/tokenized/threads.NewReadCloser"] = []string{ghTeeSrc, ghTeeDst, ghConsumed, ghFailed}
 	builtinModels["github.com/tokenized/threads.NewWriteCounter"] = func(fc *FnCtx, c *ssa.CallCommon, args []Val, rt types.Type) (*Val, error) {
 		r := fc.newRef()
 		fc.setComp(ghCount, arraySort("Int"), sto(fc.ghArr(ghCount), r, "0"))
@@ -176,7 +187,7 @@ func init() {
 	}
 	newReader := func(fc *FnCtx, c *ssa.CallCommon, args []Val, rt types.Type) (*Val, error) {
 		r := fc.newRef()
-		for _, g := range []struct{ comp, v string }{{ghTeeSrc, "0"}, {ghTeeDst, "0"}, {ghConsumed, "0"}} {
+		for _, g := range []struct{ comp, v string }{{ghTeeSrc, "0"}, {ghTeeDst, "0"}, {ghConsumed, "0"}, {ghFailed, "0"}} {
 			fc.setComp(g.comp, arraySort("Int"), sto(fc.ghArr(g.comp), r, g.v))
 		}
 		return &Val{T: r, S: SInt, Typ: rt}, nil
@@ -185,7 +196,7 @@ func init() {
 	builtinModels["bytes.NewReader"] = newReader
 	builtinModels["github.com/tokenized/threads.NewWaitingBuffer"] = newReader
 	for _, n := range []string{"bytes.NewBuffer", "bytes.NewReader", "github.com/tokenized/threads.NewWaitingBuffer"} {
-		builtinMods[n] = []string{ghTeeSrc, ghTeeDst, ghConsumed}
+		builtinMods[n] = []string{ghTeeSrc, ghTeeDst, ghConsumed, ghFailed}
 	}
 	// fixed-size decoders of the dependency: consume exactly N bytes on success, fewer on failure; assumed not to panic
 	fixedDecode := func(size int64, note string) builtinModel {
@@ -205,18 +216,18 @@ func init() {
 		}
 	}
 	builtinModels["(*github.com/tokenized/pkg/wire.BlockHeader).Deserialize"] = fixedDecode(80, "wire.BlockHeader.Deserialize consumes exactly 80 bytes on success (fewer on failure), sets all six fields to arbitrary values and does not panic")
-	builtinMods["(*github.com/tokenized/pkg/wire.BlockHeader).Deserialize"] = []string{ghConsumed, ghCount, "*"}
+	builtinMods["(*github.com/tokenized/pkg/wire.BlockHeader).Deserialize"] = []string{ghConsumed, ghCount, ghFailed, "*"}
 	builtinModels["(*github.com/tokenized/pkg/bitcoin.Hash32).Deserialize"] = fixedDecode(32, "bitcoin.Hash32.Deserialize consumes exactly 32 bytes on success and does not panic")
-	builtinMods["(*github.com/tokenized/pkg/bitcoin.Hash32).Deserialize"] = []string{ghConsumed, ghCount, "*"}
+	builtinMods["(*github.com/tokenized/pkg/bitcoin.Hash32).Deserialize"] = []string{ghConsumed, ghCount, ghFailed, "*"}
 	builtinModels["(*github.com/tokenized/pkg/wire.MsgTx).Deserialize"] = func(fc *FnCtx, c *ssa.CallCommon, args []Val, rt types.Type) (*Val, error) {
 		fc.vc.trust("wire.MsgTx.Deserialize consumes some bytes of its reader, fills the transaction with arbitrary values and does not panic (dependency decoder trusted)")
 		k := fc.vc.fresh("txbytes", "Int")
 		fc.vc.assert("(<= 0 " + k + ")")
-		fc.readBytes(args[1].T, k)
 		v := fc.symbolic("txerr", rt)
+		fc.readBytesF(args[1].T, k, mkIte(mkEq(v.T, "0"), "0", "1"))
 		return &v, nil
 	}
-	builtinMods["(*github.com/tokenized/pkg/wire.MsgTx).Deserialize"] = []string{ghConsumed, ghCount}
+	builtinMods["(*github.com/tokenized/pkg/wire.MsgTx).Deserialize"] = []string{ghConsumed, ghCount, ghFailed}
 	inlineDeps["github.com/tokenized/pkg/wire.ReadVarInt"] = true
 	inlineDeps["github.com/tokenized/pkg/wire.ReadVarIntN"] = true
 	builtinModels["github.com/tokenized/pkg/wire.messageError"] = modelErrNew
